@@ -791,9 +791,6 @@ impl<'a> Ref<'a> {
                     if toks.iter().any(|t| matches!(&t.k, Tk::Num(s) if !matches!(number_value(s), NumVal::Plain(_)))) {
                         return Err(Stop::Skip("number outside the supported literals in a selected group".into()));
                     }
-                    if toks.iter().any(|t| matches!(&t.k, Tk::P(p) if p == "#" || p == "##")) {
-                        return Err(Stop::Skip("# in text".into()));
-                    }
                     pending.extend(toks);
                     pending.push(T::new(Tk::Nl, false));
                 } else {
